@@ -87,7 +87,8 @@ fn eval_case(case: &J) -> J {
 
 fn parse_case(case: &J) -> J {
     let src = case["src"].as_str().unwrap_or("").to_owned();
-    match AstModule::parse("case.star", src, &Dialect::Standard) {
+    let dialect = if case["dialect"].as_str() == Some("extended") { Dialect::AllOptionsInternal } else { Dialect::Standard };
+    match AstModule::parse("case.star", src, &dialect) {
         Ok(a) => json!({"ok": format!("{:?}", a.statement().node), "printed": format!("{}", a.statement().node)}),
         Err(e) => json!({"err": format!("{}", e)}),
     }
